@@ -5,6 +5,10 @@ pub fn all() -> Vec<(&'static str, fn())> {
         ("c01_fold_lore_begin_pos_overflow", c01_fold_lore_begin_pos_overflow),
         ("c01_fold_lore_pos_beyond_trace_then_par", c01_fold_lore_pos_beyond_trace_then_par),
         ("c04_par_left_not_repositioned_honest", c04_par_left_not_repositioned_honest),
+        ("c01_fold_value_pos_to_ap_without_generation", c01_fold_value_pos_to_ap_without_generation),
+        ("c01_ap_generation_u32_max", c01_ap_generation_u32_max),
+        ("c01_ap_generation_huge_alloc", c01_ap_generation_huge_alloc),
+        ("c01_executed_call_with_unresolved_args", c01_executed_call_with_unresolved_args),
     ]
 }
 
@@ -98,4 +102,46 @@ fn c04_par_left_not_repositioned_honest() {
     let o4 = run_ttl(air, o3.data.clone(), vec![], "A", 5, no_call_results());
     report(&o4);
     assert!(o4.ret_code == 0, "honest re-run failed with code {}: {}", o4.ret_code, o4.error_message);
+}
+
+/// MergeCtx::try_get_generation indexes res_generations[0] of whatever Ap state the fold lore points to.
+fn c01_fold_value_pos_to_ap_without_generation() {
+    let air = r#"(seq (ap 1 $s) (fold $s i (seq (null) (next i))))"#;
+    let empty_ap = ExecutedState::Ap(ApResult { res_generations: vec![] });
+    let cur = data(vec![ap_state(0), fold_state(vec![(2, (3, 0), (3, 0))]), empty_ap], <_>::default(), 0);
+    let o = run(air, vec![], cur, PEER, no_call_results());
+    report(&o);
+}
+
+/// ValuesMatrix::add_value_to_generation: generation + 1 overflows for u32::MAX.
+fn c01_ap_generation_u32_max() {
+    let air = r#"(ap 1 $s)"#;
+    let cur = data(vec![ap_state(u32::MAX)], <_>::default(), 0);
+    let o = run(air, vec![], cur, PEER, no_call_results());
+    report(&o);
+}
+
+/// ValuesMatrix::add_value_to_generation resizes the matrix to generation + 1 slots (24 bytes each):
+/// a 40-byte state asks for ~2.4 GB here (100_000_000 generations).
+fn c01_ap_generation_huge_alloc() {
+    let air = r#"(ap 1 $s)"#;
+    let cur = data(vec![ap_state(100_000_000)], <_>::default(), 0);
+    let o = run(air, vec![], cur, PEER, no_call_results());
+    report(&o);
+    let status = std::fs::read_to_string("/proc/self/status").unwrap_or_default();
+    for l in status.lines().filter(|l| l.starts_with("VmHWM") || l.starts_with("VmPeak")) {
+        println!("MEM {l}");
+    }
+}
+
+/// handle_prev_state unwraps the argument hash, which is None while an argument is not yet resolvable.
+fn c01_executed_call_with_unresolved_args() {
+    let air = r#"
+    (seq
+        (par (call "other" ("s" "x") [] x) (null))
+        (call "other2" ("s" "f") [x]))"#;
+    let unused = ExecutedState::Call(CallResult::executed_unused(air_interpreter_cid::CID::new("bagaaihraaaaaaaaaaaaaaaaaaaaaaaaaaaaaaaaaaaaaaaaaaaaaaaaaaaaa")));
+    let cur = data(vec![ExecutedState::par(1, 0), sent_by("other"), unused], <_>::default(), 0);
+    let o = run(air, vec![], cur, PEER, no_call_results());
+    report(&o);
 }
